@@ -131,10 +131,11 @@ structure JobOk (members : List Nat) (j : Job) : Prop where
 def Fresh (members : List Nat) (j : Job) : Prop :=
   ∀ n ∈ j.listing, n ∈ members ∨ n ∈ j.got ∨ n ∈ j.todo ∨ n = j.cur.name
 
-structure WOk (members : List Nat) (queue : List (List Nat)) (job : Option Job) : Prop where
+/-- `free`: no listing is in progress (the blocker lets the worker begin an update) -/
+structure WOk (free : Bool) (members : List Nat) (queue : List (List Nat)) (job : Option Job) : Prop where
   mnd : members.Nodup
   qnd : ∀ l ∈ queue, l.Nodup
-  idle : job = none → queue = []
+  idle : job = none → free = true → queue = []
   jok : ∀ j, job = some j → JobOk members j
 
 /-- where the most recent child list `L` is after the worker ran -/
@@ -145,7 +146,7 @@ def LastOk (L : List Nat) (members : List Nat) (queue : List (List Nat)) (job : 
 
 theorem pump_spec (queue : List (List Nat)) : ∀ (members : List Nat) (nxt : Option Nat) (w : WSt),
     members.Nodup → (∀ l ∈ queue, l.Nodup) → pump members queue nxt = some w →
-    WOk w.members w.queue w.job ∧ altOk members w.notes = true ∧
+    (∀ b, WOk b w.members w.queue w.job) ∧ altOk members w.notes = true ∧
     viewOf members w.notes = w.members ∧
     (∀ L, queue.getLast? = some L → LastOk L w.members w.queue w.job) ∧
     (queue = [] → w.members = members ∧ w.queue = [] ∧ w.job = none ∧ w.notes = []) := by
@@ -155,7 +156,7 @@ theorem pump_spec (queue : List (List Nat)) : ∀ (members : List Nat) (nxt : Op
     simp only [pump] at hp
     split at hp
     · injection hp with hp; subst hp
-      exact ⟨⟨hm, by simp, fun _ => rfl, by simp⟩, by simp [altOk], by simp [viewOf], by simp, by simp⟩
+      exact ⟨fun _ => ⟨hm, by simp, fun _ _ => rfl, by simp⟩, by simp [altOk], by simp [viewOf], by simp, by simp⟩
     · cases hp
   | cons q qs ih =>
     intro members nxt w hm hq hp
@@ -209,7 +210,7 @@ theorem pump_spec (queue : List (List Nat)) : ∀ (members : List Nat) (nxt : Op
             intro x hx
             rw [List.mem_filter] at hx
             exact ⟨hx.1, by simpa using hx.2⟩
-          refine ⟨⟨hm, hqs, by simp, ?_⟩, by simp [altOk], by simp [viewOf], ?_, by simp⟩
+          refine ⟨fun _ => ⟨hm, hqs, by simp, ?_⟩, by simp [altOk], by simp [viewOf], ?_, by simp⟩
           · intro j hj
             simp only [Option.some.injEq] at hj
             subst hj
@@ -240,13 +241,33 @@ theorem pump_spec (queue : List (List Nat)) : ∀ (members : List Nat) (nxt : Op
               exact Or.inl hL
         · cases hp
 
+/-- the same for the worker behind the blocker: while a listing is in progress nothing moves -/
+theorem pumpB_spec (free : Bool) (queue : List (List Nat)) (members : List Nat) (nxt : Option Nat)
+    (w : WSt) (hm : members.Nodup) (hq : ∀ l ∈ queue, l.Nodup)
+    (hp : pumpB free members queue nxt = some w) :
+    WOk free w.members w.queue w.job ∧ altOk members w.notes = true ∧
+    viewOf members w.notes = w.members ∧
+    (∀ L, queue.getLast? = some L → LastOk L w.members w.queue w.job) ∧
+    (queue = [] → w.members = members ∧ w.queue = [] ∧ w.job = none ∧ w.notes = []) := by
+  cases free with
+  | true =>
+    simp only [pumpB, if_true] at hp
+    obtain ⟨h1, h2, h3, h4, h5⟩ := pump_spec queue members nxt w hm hq hp
+    exact ⟨h1 _, h2, h3, h4, h5⟩
+  | false =>
+    simp only [pumpB, Bool.false_eq_true, if_false] at hp
+    split at hp
+    · injection hp with hp; subst hp
+      exact ⟨⟨hm, hq, fun _ h => (by cases h), by simp⟩, by simp [altOk], by simp [viewOf],
+        fun L hL => Or.inl hL, fun h => ⟨rfl, h, rfl, rfl⟩⟩
+    · cases hp
 
 /-! ### invariants of a state -/
 
 structure Inv0 (s : St) : Prop where
   knd : s.tree.kids.Nodup
   pgen : ∀ g, s.tree.parent = some g → g ≤ s.tree.gen
-  wok : WOk s.members s.queue s.job
+  wok : WOk s.lists.isEmpty s.members s.queue s.job
 
 /-- before the ServerSet exists nothing is registered or remembered -/
 structure Pre (s : St) : Prop where
@@ -325,8 +346,12 @@ theorem quiet_synced {cfg : Cfg} {s : St} (he : EnvInv cfg s) (hp : s.pending = 
 /-- **the key fact**: in a quiet state the announced members are exactly the members present -/
 theorem quiet_members {cfg : Cfg} {s : St} (hi : Inv cfg s) (hq : s.quiet = true) :
     ∀ n, n ∈ s.members ↔ n ∈ s.tree.present cfg.lim := by
+  have hfree : s.lists.isEmpty = true := by
+    simp only [St.quiet, Bool.and_eq_true] at hq
+    exact hq.2
   simp only [St.quiet, Bool.and_eq_true, List.isEmpty_iff, Option.isNone_iff_eq_none] at hq
-  obtain ⟨⟨⟨hst, hp⟩, hqe⟩, hj⟩ := hq
+  obtain ⟨⟨⟨hst, hp⟩, hj⟩, _⟩ := hq
+  have hqe : s.queue = [] := hi.i0.wok.idle hj hfree
   have he := hi.env hst
   obtain ⟨hs, hn⟩ := quiet_synced he hp
   rw [← hn]
@@ -384,17 +409,17 @@ theorem treeStep_fields (s : St) (o : TOp) :
     (treeStep s o).members = s.members ∧ (treeStep s o).queue = s.queue ∧
     (treeStep s o).job = s.job ∧ (treeStep s o).nodes = s.nodes ∧
     (treeStep s o).started = s.started ∧ (treeStep s o).tree = s.tree.apply o ∧
-    (treeStep s o).watched = s.watched := by
-  refine ⟨?_, ?_, ?_, ?_, ?_, ?_, ?_⟩ <;>
+    (treeStep s o).watched = s.watched ∧ (treeStep s o).lists = s.lists := by
+  refine ⟨?_, ?_, ?_, ?_, ?_, ?_, ?_, ?_⟩ <;>
     (cases o <;> simp only [treeStep, fireChild, fireData] <;> (try split) <;> rfl)
 
 theorem treeStep_inv {cfg : Cfg} {s : St} (o : TOp) (hi : Inv cfg s) (hl : s.tree.legal o = true) :
     Inv cfg (treeStep s o) := by
-  obtain ⟨hmem, hque, hjob, hnod, hsta, htre, hwat⟩ := treeStep_fields s o
+  obtain ⟨hmem, hque, hjob, hnod, hsta, htre, hwat, hlis⟩ := treeStep_fields s o
   refine ⟨⟨?_, ?_, ?_⟩, ?_, ?_, ?_⟩
   · rw [htre]; exact tree_kids_nodup _ _ hi.i0.knd hl
   · rw [htre]; exact tree_pgen _ _ hi.i0.pgen
-  · rw [hmem, hque, hjob]; exact hi.i0.wok
+  · rw [hmem, hque, hjob, hlis]; exact hi.i0.wok
   · intro hs
     rw [hsta] at hs
     have hp := hi.pre hs
@@ -548,10 +573,8 @@ theorem LastOk_LastS {s : St} (h : LastOk s.nodes s.members s.queue s.job) : Las
 theorem wake_spec {s1 s2 : St} {nxt : Option Nat} {ns : List Note} (hm : s1.members.Nodup)
     (hq : ∀ l ∈ s1.queue, l.Nodup) (hj : ∀ j, s1.job = some j → JobOk s1.members j)
     (h : wake s1 nxt = some (s2, ns)) :
-    WOk s2.members s2.queue s2.job ∧ altOk s1.members ns = true ∧ viewOf s1.members ns = s2.members ∧
-    EnvEq s1 s2 ∧
-    (s1.queue.getLast? = some s1.nodes → LastS s2) ∧
-    ((s1.job = none → s1.queue = []) → LastS s1 → LastS s2) := by
+    WOk s2.lists.isEmpty s2.members s2.queue s2.job ∧ altOk s1.members ns = true ∧
+    viewOf s1.members ns = s2.members ∧ EnvEq s1 s2 ∧ (LastS s1 → LastS s2) := by
   unfold wake at h
   cases hjob : s1.job with
   | some j =>
@@ -560,25 +583,26 @@ theorem wake_spec {s1 s2 : St} {nxt : Option Nat} {ns : List Note} (hm : s1.memb
     split at h
     · injection h with h; injection h with h1 h2; subst h1; subst h2
       refine ⟨⟨hm, hq, by simp [hjob], hj⟩, by simp [altOk], by simp [viewOf], ⟨rfl, rfl, rfl, rfl, rfl, rfl, rfl, rfl, rfl⟩,
-        fun h => Or.inl h, fun _ h => h⟩
+        fun h => h⟩
     · cases h
   | none =>
     rw [hjob] at h
     simp only at h
-    cases hp : pump s1.members s1.queue nxt with
+    cases hp : pumpB s1.lists.isEmpty s1.members s1.queue nxt with
     | none => rw [hp] at h; cases h
     | some w =>
       rw [hp] at h
       simp only [Option.map_some] at h
       injection h with h; injection h with h1 h2; subst h1; subst h2
-      obtain ⟨hok, ha, hv, hl, he⟩ := pump_spec s1.queue s1.members nxt w hm hq hp
-      refine ⟨hok, ha, hv, ⟨rfl, rfl, rfl, rfl, rfl, rfl, rfl, rfl, rfl⟩, ?_, ?_⟩
-      · intro hlast
-        exact LastOk_LastS (hl _ hlast)
-      · intro hidle hlastS
-        have hidle' : s1.queue = [] := hidle rfl
-        obtain ⟨e1, e2, e3, _⟩ := he hidle'
-        refine LastS_mono (s := s1) ?_ ?_ ?_ rfl (fun hs => hs) hlastS
+      obtain ⟨hok, ha, hv, hl, he⟩ := pumpB_spec _ s1.queue s1.members nxt w hm hq hp
+      refine ⟨hok, ha, hv, ⟨rfl, rfl, rfl, rfl, rfl, rfl, rfl, rfl, rfl⟩, ?_⟩
+      intro hlastS
+      rcases hlastS with hlast | ⟨_, j, hj', _⟩ | ⟨hidle', _, _⟩
+      · exact LastOk_LastS (hl _ hlast)
+      · rw [hjob] at hj'; cases hj'
+      · obtain ⟨e1, e2, e3, _⟩ := he hidle'
+        refine LastS_mono (s := s1) ?_ ?_ ?_ rfl (fun hs => hs)
+          (Or.inr (Or.inr ⟨hidle', hjob, by assumption⟩))
         · simp only [e2, hidle']
         · simp only [e3, hjob]
         · simp only [e1]
